@@ -544,6 +544,11 @@ def handleRegistry (j : Json) : P Json := do
 def handle (op : String) (j : Json) : P Json := do
   match op with
   | "registry" => handleRegistry j
+  | "custombody" =>
+    let own ← bodyOfJson (← j.getObjVal? "own")
+    let attrs ← (← arrField j "attrs").mapM infoOfJson
+    let b := customBody own attrs
+    pure (Json.mkObj [("body", bodyToJson b), ("valid", bodyOK "custom" b)])
   | "legacy" => handleLegacy j
   | "mutations" => handleMutations j
   | "points" => handlePoints j
